@@ -561,6 +561,14 @@ class LenSim:
             force = env.get("force") or self.force
             if force and fk.name in force:
                 return int(force[fk.name])
+            # a local helper applied to integers we know (an extracted `fn is_compressed_prefix(b: u8) -> bool`):
+            # constant-propagate through its body
+            cb = self.F.bodies.get(fk.d)
+            if cb is not None and t[2] and self.slice_param(cb) is None and not cb.rec.get("requires_mono"):
+                ins = cb.rec.get("inputs") or []
+                if all(x.strip() in ("u8", "u16", "u32", "u64", "usize", "u128", "bool", "i32", "i64", "isize") for x in ins) and len(ins) == len(t[2]):
+                    vals = [self.int_of(a, env) for a in t[2]]
+                    return self.eval_int_fn(cb, vals)
             raise Unk()
         if h == "unop":
             if t[1] == "PtrMetadata":
@@ -608,6 +616,31 @@ class LenSim:
             if len(vals) == 1:
                 return vals.pop()
         raise Unk()
+
+    def eval_int_fn(self, body, vals):
+        from .absexec import AbsExec, TOP
+
+        class _Ints:
+            def call(self, ex, fk, args, term, fr):
+                return NotImplemented
+        key = (body.rec["path"], tuple(vals))
+        cache = self.__dict__.setdefault("_intfn", {})
+        if key in cache:
+            if cache[key] is None:
+                raise Unk()
+            return cache[key]
+        ex = AbsExec(self.F, _Ints(), max_steps=20000, max_paths=64)
+        try:
+            rs = ex.run(body, [bool(v) if ty.strip() == "bool" else v for v, ty in zip(vals, body.rec.get("inputs") or [])])
+        except Exception:
+            rs = []
+        res = None
+        if len(rs) == 1 and isinstance(rs[0][0], (bool, int)):
+            res = int(rs[0][0])
+        cache[key] = res
+        if res is None:
+            raise Unk()
+        return res
 
     def variants(self, t, env):
         body = env["body"]
